@@ -70,8 +70,15 @@ def r1_matrix(rule, root=None):
         else:
             rule.bad("%s|transform_point" % ty, "%s::transform_point must apply world_to_model" % ty, A.where(f))
     f = vfn("View3", "rot_mat", root)
-    t = txt(f["body"])
+    t = txt(A.inline_lets_deep(f["body"]))
     m = re.fullmatch(r"\{\(Matrix4::from_axis_angle\(&nalgebra::Unit::new_normalize\(Vector3::new\(0\.0,0\.0,1\.0\)\),self\.yaw\)\*Matrix4::from_axis_angle\(&nalgebra::Unit::new_normalize\(Vector3::new\(1\.0,0\.0,0\.0\)\),self\.pitch\)\)\}", t)
+    if not m:
+        from .. import effects as E
+
+        st_ = f["body"]["stmts"]
+        tl_ = A.stmt_expr(st_[-1]) if st_ and not st_[-1].get("semi") else None
+        cn = E.canon(tl_, E.let_env(st_[:-1])) if tl_ is not None else ""
+        m = re.sub(r"(?<=\d)\.0\b", ".0", cn) == "(Matrix4::from_axis_angle(nalgebra::Unit::new_normalize(Vector3::new(0.0,0.0,1.0)),self.yaw)*Matrix4::from_axis_angle(nalgebra::Unit::new_normalize(Vector3::new(1.0,0.0,0.0)),self.pitch))"
     if m:
         rule.ok("View3::rot_mat = yaw about Z x pitch about X")
     else:
@@ -312,6 +319,31 @@ def _interact_paths_ok(fn):
     return pos in ("pos_screen", "cursor_state.map(|cs|cs.screen_pos)") or bool(re.fullmatch(r"cursor_state\.map\(\|(\w+)\|\1\.screen_pos\)", pos))
 
 
+def _drag_dispatch_ok(fn):
+    """a Pan handle goes to view.translate, a Rotate handle to view.rotate (each with the cursor's world
+    position), and with no drag stored the answer is false - however the Option / enum are taken apart"""
+    want = {"translate": "Pan", "rotate": "Rotate"}
+    seen = set()
+    for c in A.find(fn["body"], "MethodCall"):
+        if c["method"] in want and str(txt(c["recv"])) == "self.view" and len(c["args"]) == 2:
+            h = A.ident(A.strip(c["args"][0]))
+            if str(txt(c["args"][1])) != "pos_world" or not h:
+                return False
+            ok = False
+            for pat, _scr in A.enclosing_patterns(fn["body"], c) or []:
+                for p_ in A.walk(pat):
+                    if isinstance(p_, dict) and p_.get("k") == "PTupleStruct":
+                        segs, subs = A.pat_variant(p_)
+                        if segs and segs[-2:] == ["Drag3", want[c["method"]]] and subs and A.binding_name(subs[0]) == h:
+                            ok = True
+            if not ok:
+                return False
+            seen.add(c["method"])
+    t = str(txt(fn["body"]))
+    none_false = "None=>false" in t or "else{returnfalse;}" in t or "else{false}" in t
+    return seen == set(want) and none_false
+
+
 def r6_canvases(rule, root=None):
     for ty in ("Canvas2", "Canvas3"):
         fn = vfn(ty, "interact", root)
@@ -380,13 +412,16 @@ def r6_canvases(rule, root=None):
             rule.ok("%s::zoom returns the view's own changed flag" % ty, file=GUI, line=fn["ln"])
         else:
             rule.bad("%s|zoom|flag" % ty, "%s::zoom must return what self.view.zoom(..) returned on every path (found %s): the view compares the factor with 1, the scroll amount does not say whether anything changed" % (ty, [str(txt(e_)) for e_ in outs]), A.where(fn))
-        if "self.view.zoom(((amount/100.0)).exp2(),pos_world)" in txt(fn["body"]) or "self.view.zoom((amount/100.0).exp2(),pos_world)" in txt(fn["body"]):
+        zin = A.inline_helpers(fn)
+        zcalls = [c_ for c_ in A.find(zin, "MethodCall") if c_["method"] == "zoom" and str(txt(c_["recv"])) == "self.view" and len(c_["args"]) == 2]
+        zarg = re.sub(r"[(){}]", "", str(txt(A.inline_lets_deep({"k": "Block", "stmts": [{"k": "ExprStmt", "e": zcalls[0]["args"][0], "semi": False}], "ln": 0})))) if len(zcalls) == 1 else ""
+        if "self.view.zoom(((amount/100.0)).exp2(),pos_world)" in txt(fn["body"]) or "self.view.zoom((amount/100.0).exp2(),pos_world)" in txt(fn["body"]) or (zarg == "amount/100.0.exp2" and str(txt(zcalls[0]["args"][1])) == "pos_world"):
             rule.ok("%s::zoom: zero scroll is factor 1" % ty)
         else:
             rule.bad("%s|zoom" % ty, "%s::zoom must map scroll s to the factor 2^(s/100)" % ty, A.where(fn))
     fn = vfn("Canvas3", "drag", root)
     t = txt(fn["body"])
-    if "Some(Drag3::Pan(prev))=>self.view.translate(prev,pos_world)" in t and "Some(Drag3::Rotate(prev))=>self.view.rotate(prev,pos_world)" in t and "None=>false" in t:
+    if ("Some(Drag3::Pan(prev))=>self.view.translate(prev,pos_world)" in t and "Some(Drag3::Rotate(prev))=>self.view.rotate(prev,pos_world)" in t and "None=>false" in t) or _drag_dispatch_ok(fn):
         rule.ok("Canvas3::drag dispatches pan / rotate handles to their own operation; no drag, no change")
     else:
         rule.bad("Canvas3|drag", "Canvas3::drag must route Pan to translate and Rotate to rotate", A.where(fn))
